@@ -54,7 +54,8 @@ type Domain struct {
 
 // Engine holds the per-program state.
 type Engine struct {
-	lenEq map[[2]*ssa.Parameter]bool
+	lenEq  map[[2]*ssa.Parameter]bool
+	nnBusy map[ssa.Value]bool
 	Sx     *symx.Ctx
 	CG     *callgraph.Graph
 	IsRepo func(*ssa.Function) bool
@@ -920,6 +921,45 @@ func (c *Fn) NonNeg(i ssa.Value, at *ssa.BasicBlock) bool {
 			}
 		}
 	}
+	// a parameter that every caller fills with a non-negative argument
+	if p, ok := i.(*ssa.Parameter); ok && !c.E.nnBusy[p] {
+		if c.E.nnBusy == nil {
+			c.E.nnBusy = map[ssa.Value]bool{}
+		}
+		c.E.nnBusy[p] = true
+		defer delete(c.E.nnBusy, p)
+		if sites, open := c.E.callers(c.fn); !open && len(sites) > 0 {
+			all := true
+			for _, s := range sites {
+				a := argFor(s.Site, c.fn, p)
+				if a == nil || !c.E.Of(s.Caller.Func).NonNeg(a, s.Site.Block()) {
+					all = false
+					break
+				}
+			}
+			if all {
+				return true
+			}
+		}
+	}
+	// a field of a struct that a helper of the repository built and returned
+	// (opts := buildOptions(..); opts.Limit): what the helper put there
+	if u, ok := i.(*ssa.UnOp); ok && u.Op == token.MUL && !c.E.nnBusy[u] {
+		if fa, ok := u.X.(*ssa.FieldAddr); ok {
+			if cell, ok := fa.X.(*ssa.Alloc); ok {
+				if call := onlyCallStored(cell, fa.Field); call != nil {
+					if c.E.nnBusy == nil {
+						c.E.nnBusy = map[ssa.Value]bool{}
+					}
+					c.E.nnBusy[u] = true
+					defer delete(c.E.nnBusy, u)
+					if c.E.callFieldNonNeg(call, fa.Field) {
+						return true
+					}
+				}
+			}
+		}
+	}
 	// x - y with 0 <= y <= x (no wrap-around: the difference lies in [0, x])
 	if bo, ok := i.(*ssa.BinOp); ok && bo.Op == token.SUB && !c.subBusy[bo] {
 		if c.subBusy == nil {
@@ -1517,4 +1557,80 @@ func (e *Engine) paramLensEqual(fn *ssa.Function, p, q *ssa.Parameter) bool {
 	}
 	e.lenEq[key] = true
 	return true
+}
+
+// onlyCallStored: the local struct cell is assigned exactly once, as a whole,
+// from the result of a call, and field #field is never stored to separately.
+func onlyCallStored(cell *ssa.Alloc, field int) *ssa.Call {
+	var call *ssa.Call
+	n := 0
+	for _, ref := range *cell.Referrers() {
+		switch r := ref.(type) {
+		case *ssa.Store:
+			if r.Addr == ssa.Value(cell) {
+				n++
+				call, _ = r.Val.(*ssa.Call)
+			}
+		case *ssa.FieldAddr:
+			if r.Field != field {
+				continue
+			}
+			for _, r2 := range *r.Referrers() {
+				if st, ok := r2.(*ssa.Store); ok && st.Addr == ssa.Value(r) {
+					return nil
+				}
+			}
+		}
+	}
+	if n != 1 {
+		return nil
+	}
+	return call
+}
+
+// callFieldNonNeg: every return of the repository function called hands back
+// a struct whose field #field holds a value proven non-negative in the callee.
+func (e *Engine) callFieldNonNeg(call *ssa.Call, field int) bool {
+	g := call.Common().StaticCallee()
+	if g == nil || !e.IsRepo(g) || len(g.Blocks) == 0 || g.Signature.Results().Len() != 1 {
+		return false
+	}
+	gc := e.Of(g)
+	n := 0
+	for _, ret := range ssau.ReturnsOf(g) {
+		ld, ok := ret.Results[0].(*ssa.UnOp)
+		if !ok {
+			return false
+		}
+		lit, ok := ld.X.(*ssa.Alloc)
+		if !ok {
+			return false
+		}
+		stores := 0
+		for _, ref := range *lit.Referrers() {
+			switch r := ref.(type) {
+			case *ssa.Store:
+				if r.Addr == ssa.Value(lit) {
+					return false
+				}
+			case *ssa.FieldAddr:
+				if r.Field != field {
+					continue
+				}
+				for _, r2 := range *r.Referrers() {
+					if st, ok := r2.(*ssa.Store); ok && st.Addr == ssa.Value(r) {
+						stores++
+						if !gc.NonNeg(st.Val, st.Block()) {
+							return false
+						}
+					}
+				}
+			}
+		}
+		if stores == 0 {
+			// the zero value
+		}
+		n++
+	}
+	return n > 0
 }
